@@ -575,8 +575,12 @@ class FastSimulation(object):
             with open(self.code_file, 'w') as file:
                 file.write(s)
 
-        self.tracer._set_initial_values(self.default_value, self.regs.copy(),
-                                        copy.deepcopy(self.mems))
+        # Record initial values keyed the same way Simulation does
+        # (Register -> value, memid -> {addr: value}), as output_verilog_testbench expects.
+        self.tracer._set_initial_values(
+            self.default_value,
+            {r: self.regs[r.name] for r in reg_set},
+            {mem.id: copy.deepcopy(mem_map) for mem, mem_map in memory_value_map.items()})
 
         context = {}
         logic_creator = compile(s, '<string>', 'exec')
